@@ -13,7 +13,11 @@
 //! target — to `check`, `use`, `chroot`, `chdir`, `setuid`, `other` (imported), to the
 //! function itself or to a second function taken from a list of callee shapes
 //! (thorough: additionally every second function with <= 2 blocks over the same
-//! alphabet); import table with and without `chdir`; every listed configuration of
+//! alphabet); plus a *forward slice*: functions with 5 (thorough: also 6) blocks whose
+//! targets only go forward (a DAG) over the reduced alphabet none / return / jump / every
+//! ordered conditional pair / call source -> r / call sink -> r / call sink without
+//! return, once for (check, use) and once for (chroot, chdir) — deep enough for a join
+//! block behind a second source call; import table with and without `chdir`; every listed configuration of
 //! the two checks. Each raw program goes through the real `normalize_basic` (and, as a
 //! second variant, `normalize_basic` + `normalize_optimize`, which is what the tool's
 //! pipeline hands to the checks), the real `get_program_cfg`, and the real
@@ -361,6 +365,31 @@ fn main() {
             });
         }
     }
+    // ---- forward (DAG) slice: deeper functions over a reduced alphabet, so that a join block can lie
+    // behind a second source call on one branch and behind a plain path on the other
+    let mut forward: Vec<(usize, Aim, Vec<bool>)> = vec![(5, Aim::Toctou, vec![false, true]), (5, Aim::Chroot, vec![false, true])];
+    if thorough {
+        forward.push((6, Aim::Toctou, vec![false]));
+        forward.push((6, Aim::Chroot, vec![false]));
+    }
+    for (n0, aim, modes) in &forward {
+        let alphabets: Vec<Vec<T>> = (0..*n0).map(|k| forward_alphabet(*n0, k, *aim)).collect();
+        let dims: Vec<u64> = alphabets.iter().map(|a| a.len() as u64).collect();
+        let programs = mcx::space::size(&dims);
+        let n = programs * modes.len() as u64;
+        total += n;
+        described.push(json!({"forward_dag_slice": format!("{aim:?}"), "blocks_f0": n0, "alphabet_per_block": dims, "f1": ["Return"], "chdir_imported": true,
+            "normalization_variants": modes.len(), "cases": n}));
+        par_for(n, 256, |i| {
+            let mode = modes[(i % modes.len() as u64) as usize];
+            let d0 = mcx::space::decode(i / modes.len() as u64, &dims);
+            let f0: Vec<T> = d0.into_iter().enumerate().map(|(k, d)| alphabets[k][d].clone()).collect();
+            let case = Case { funs: vec![f0, vec![T::Return]], chdir_imported: true, full_normalize: mode };
+            ctx.sample(|| json!({"case": case, "raw_program": render(&build(&case))}));
+            ctx.stat("forward_dag_slice_cases", 1);
+            run_case(ctx, &case);
+        });
+    }
     ctx.set("families", json!(described));
     ctx.set(
         "bounds",
@@ -370,6 +399,7 @@ fn main() {
                "import_table": "with and without chdir (programs without chdir import cannot call it)",
                "cwe367_configs": PAIR_CONFIGS.len(), "cwe243_configs": PRIV_CONFIGS.len(),
                "normalization": "normalize_basic, and normalize_basic+normalize_optimize (4-block functions: the latter with the first callee shape only; exhaustive second functions: normalize_basic only)",
+               "forward_dag_slice": if thorough { "functions with 5 and 6 blocks whose targets only go forward (t > own index), reduced alphabet none | return | jump t | cond-pair t,t' (all ordered pairs) | call source -> r | call sink -> r | call sink without return; once with (check,use), once with (chroot,chdir); 6 blocks: normalize_basic only" } else { "functions with 5 blocks whose targets only go forward (t > own index), reduced alphabet none | return | jump t | cond-pair t,t' (all ordered pairs) | call source -> r | call sink -> r | call sink without return; once with (check,use), once with (chroot,chdir)" },
                "total_cases": total}),
     );
     ctx.assume("jump and return targets stay inside the own function; blocks have no defs; symbol names are unique in the import table (extractor guarantee)");
